@@ -72,3 +72,50 @@ pub fn state_of(i: usize) -> ValueStatus { match i { 0 => ValueStatus::New, 1 =>
 /// table is only read during a concurrent phase (checked), the metrics averages are observed by no property (unchecked)
 pub fn quiet_client(c: &Client) { c.selected_db.name.set_quiet(1); c.selected_db.user_name.set_quiet(1); c.cluster_member.set_quiet(1); }
 pub fn quiet_node(dbs: &Arc<Databases>) { dbs.map.set_quiet(1); dbs.query_ema.set_quiet(2); dbs.replication_ema.set_quiet(2); }
+
+/// dump of all observable node state (every key of every database, watcher counts, cluster members, queues, role)
+pub fn digest(n: &mut Node) -> Vec<String> {
+    let mut out: Vec<String> = Vec::new();
+    {
+        let m = n.dbs.map.read().unwrap();
+        let mut names: Vec<String> = m.keys().map(|k| k.clone()).collect(); names.sort();
+        for name in names.iter() {
+            let db = m.get(name).unwrap();
+            out.push(["db ", name, " strategy ", &db.metadata.consensus_strategy.to_string(), " id ", &db.metadata.id.to_string(), " conns ", &db.connections_count().to_string()].concat());
+            let dm = db.map.read().unwrap();
+            let mut keys: Vec<String> = dm.keys().map(|k| k.clone()).collect(); keys.sort();
+            for k in keys.iter() {
+                let v = dm.get(k).unwrap();
+                out.push(["  ", k, " = ", &v.value, " @", &v.version.to_string(), " s", &(v.state as usize).to_string()].concat());
+            }
+            let wm = db.watchers.map.read().unwrap();
+            let mut wk: Vec<String> = wm.keys().map(|k| k.clone()).collect(); wk.sort();
+            for k in wk.iter() { out.push(["  watch ", k, " x", &wm.get(k).unwrap().len().to_string()].concat()); }
+        }
+    }
+    {
+        let cs = n.dbs.cluster_state.lock().unwrap();
+        let members = cs.members.lock().unwrap();
+        let mut names: Vec<String> = members.keys().map(|k| k.clone()).collect(); names.sort();
+        for k in names.iter() { out.push(["member ", k, " role ", &(members.get(k).unwrap().role as usize).to_string()].concat()); }
+    }
+    out.push(["role ", &(n.dbs.get_role() as usize).to_string()].concat());
+    out.push(["to_snapshot ", &n.dbs.to_snapshot.read().unwrap().len().to_string()].concat());
+    out.push(["pending ", &n.dbs.pending_opps.read().unwrap().len().to_string()].concat());
+    out.push(["replication-queue ", &n.rep_rx.len().to_string()].concat());
+    out.push(["supervisor-queue ", &n.sup_rx.len().to_string()].concat());
+    out
+}
+pub fn same_lines(a: &Vec<String>, b: &Vec<String>) -> bool {
+    if a.len() != b.len() { return false; }
+    let mut i = 0; let mut ok = true;
+    while i < a.len() { if a[i] != b[i] { ok = false; } i += 1; }
+    ok
+}
+/// `n` space-free symbolic tokens (<= len chars) appended to a command word
+pub fn with_tokens(word: &str, n: usize, len: usize) -> String {
+    let mut line = String::from(word);
+    let mut a = 0;
+    while a < n { let t = vsym::any_token("arg", len); line = [&line, " ", &t].concat(); a += 1; }
+    line
+}
